@@ -123,7 +123,8 @@ def Open(tag="el", define=(), sw=NOE, cs=NOE, cond=NOE, rep=None, sub=None, omit
     dattr: list of (name, expr); oe: (structure?, expr)"""
     it = {
         "k": "open", "tag": tag,
-        "def": [{"g": bool(g), "n": n, "e": e} for g, n, e in define],
+        # a definition binds one name, or several ("(a, b) expr": the value is unpacked)
+        "def": [{"g": bool(g), "n": n if isinstance(n, str) else n[0], "ns": [n] if isinstance(n, str) else list(n), "e": e} for g, n, e in define],
         "sw": sw, "cs": cs, "cond": cond,
         "rep": {"m": "yes", "g": bool(rep[0]), "n": rep[1] if isinstance(rep[1], str) else rep[1][0],
                 "ns": [rep[1]] if isinstance(rep[1], str) else list(rep[1]), "e": rep[2]} if rep
